@@ -147,6 +147,8 @@ def val_of(entry):
 # ---------------------------------------------------------------------------------------------
 NBYTES = z3.Function("nbytes", sv.RealS, sv.IntS)
 ISMASKED = z3.Function("is_masked_array", sv.RealS, sv.BoolS)
+UNITS_OF = z3.Function("units_of", sv.RealS, sv.OpaqueS)          # unit label of a payload value
+REQUANT = z3.Function("requantified", sv.RealS, sv.OpaqueS, sv.RealS)   # the magnitude of a payload under another unit label
 SHARE = z3.Function("may_share_memory", sv.RealS, sv.RealS, sv.BoolS)
 
 
@@ -310,8 +312,29 @@ def install2(ex):
         return sv.SStr(r)
 
     def quantity(ex, path, args, kwargs, node):
+        """pint Quantity(magnitude, units): a payload value carries its unit label (units_of).  Re-wrapping a value with the
+        label it already has is the identity; with any other label it is a *different* payload (REQUANT), so a wrong label
+        cannot go unnoticed in contracts that state the delivered value"""
         mag = ex.expect(args[0], sv.SPay, path, node)
-        return sv.SPay(mag.e, args[1] if len(args) > 1 else None)
+        u = args[1] if len(args) > 1 else None
+        ue = None
+        if isinstance(u, sv.SObj):
+            ue = u.e
+        elif isinstance(u, sv.SUnion):
+            # an optional unit (e.g. the "units" entry of an Info): None stands for "dimensionless"
+            for g, x in reversed(u.alts):
+                e = x.e if isinstance(x, sv.SObj) else z3.Const("units:dimensionless", sv.OpaqueS)
+                ue = e if ue is None else sv.If(g, e, ue)
+        c = ex.cur_contract
+        if ue is None or (c is not None and "unit-labels-transparent" in c.tags and ex.frame_depth == 0):
+            return sv.SPay(mag.e, u)
+        own = UNITS_OF(mag.e)
+        if sv.simp(ue).eq(sv.simp(own)):
+            return sv.SPay(mag.e, u)
+        r = REQUANT(mag.e, ue)
+        path.assume(UNITS_OF(r) == ue)
+        path.assume(Implies(ue == own, r == mag.e))
+        return sv.SPay(r, u)
 
     def unit_one(ex, path, args, kwargs, node):
         # pint unit algebra is not modelled in the arithmetic: a unit is the real 1 (magnitudes only)
